@@ -4,7 +4,7 @@
    discipline on it.  The access table the discipline is decided on is regenerated from the Go
    source on every run (harness/c14extract.go) and decided per location by vm_compute in the case
    shards (Tie/C14.v: disciplined conc rows); the race-detector stress is search. *)
-From HL Require Import Lib.Bytes Model.Locks Proofs.LocksProofs Tie.C14 Proofs.LocksSamples.
+From HL Require Import Lib.Bytes Model.Locks Proofs.LocksProofs Proofs.LocksOrder Tie.C14 Proofs.LocksSamples.
 Open Scope N_scope.
 
 (* no data race in any reachable state of any set of threads, under any schedule, when the table
@@ -37,3 +37,16 @@ Print Assumptions C14_sample.
 Theorem C14_undisciplined_races : exists ts, reachable sample_bad_threads ts /\ race ts.
 Proof. exact bad_races. Qed.
 Print Assumptions C14_undisciplined_races.
+
+(* no deadlock: when every thread takes its locks in increasing order of the numbering and returns
+   holding none (what OrderCase and LeakCase decide on the translated table), then in every
+   reachable state in which some thread has something left to do, some thread can take a step *)
+Theorem C14_no_deadlock : forall init ts,
+  all_ordered init -> reachable init ts ->
+  (exists i t, nth_error ts i = Some t /\ t_todo t <> []) -> exists k, enabled ts k = true.
+Proof. exact reachable_no_deadlock. Qed.
+Print Assumptions C14_no_deadlock.
+
+Theorem C14_sample_ordered : all_ordered sample_threads.
+Proof. exact sample_ordered. Qed.
+Print Assumptions C14_sample_ordered.
